@@ -8,17 +8,14 @@ pub struct Slice {
 impl Transform for Slice {
     fn transform(&self, str: String) -> String {
         let from = self.from;
-        let mut to = self.to.unwrap_or(str.len());
+        let to = self.to.unwrap_or(usize::MAX);
 
-        if from > str.len() {
+        if from >= to {
             return "".to_string();
         }
 
-        if to > str.len() {
-            to = str.len();
-        }
-
-        str[from..to].to_string()
+        // Count characters, not bytes: a byte range may end before it begins or cut a multi-byte character
+        str.chars().skip(from).take(to - from).collect()
     }
 }
 
